@@ -641,7 +641,7 @@ PINNED = {
     "multitask.py": ["Multitask.__set_keyword_arguments__", "Multitask.export_results"],
     "enums.py": ["ModeSolver", "TaskType", "ExportType"],
     "helpers.py": ["calculate_fitness", "average_fitness", "get_pool_executor"],
-    "abstract.py": ["OptimizationAbstract.__init__"],
+    "abstract.py": [],
 }
 
 
